@@ -27,6 +27,21 @@ def option_sets(tier):
 
 
 def programs(tier, seed):
+    out = dag_programs()
+    singles = progs.enumerate_programs(1)
+    pairs = progs.enumerate_programs(2)
+    out += singles
+    out += pairs[::6] if tier == "quick" else pairs
+    for tr in progs.CURATED:
+        src = progs.make(tr)
+        ops = progs.try_build(src)
+        if ops is not None:
+            out.append(("+".join(tr), src, progs.tables_of(ops)))
+    return out
+
+
+def dag_programs():
+    """the programs that exercise what the options touch (CTE cache, extend merging, annotations); also used by C02"""
     sub = f"{D}.extend({{'w': 'x + 1'}})"
     flt = ".select_rows('x > 1')"
     ps = [
@@ -55,20 +70,23 @@ def programs(tier, seed):
         ("annot_percent_quote", f"{D}.extend({{'s': {repr(repr('100% ' + chr(39) + 'q' + chr(39)))}}}).project({{'n': '_size()'}}, group_by=['g'])"),
         ("join_of_join_shared", f"({D}.natural_join(b={E}, on=['g'], jointype='left')).natural_join(b=({D}.natural_join(b={E}, on=['g'], jointype='left')).project({{'mz': 'z.max()'}}, group_by=['g']), on=['g'], jointype='left')"),
     ]
+    # the SAME step text applied to two DIFFERENT tables, each followed by a step that keeps it a separate sub-query, then stacked / joined:
+    # a CTE cache keyed on the step's text alone would hand the first table's sub-query to the second branch
+    same_steps = {
+        "extend": ".extend({'w': 'x + 1'})", "window": ".extend({'t': 'x.sum()'}, partition_by=['g'])", "project": ".project({'x': 'x.sum()', 'y': 'y.max()'}, group_by=['g'])",
+        "filter": ".select_rows('x > 0')", "order_limit": ".order_rows(['x'], limit=1)", "rename": ".rename_columns({'x2': 'x'})", "drop": ".drop_columns(['y'])",
+        "map": ".map_columns({'x': 'y', 'y': 'x'})",
+    }
+    after = {"extend": ".select_rows('w > 0')", "window": ".select_rows('t > 0')", "project": ".select_rows('x > 0')", "filter": ".extend({'w': 'x + 1'})",
+             "order_limit": ".extend({'w': 'x + 1'})", "rename": ".select_rows('x2 > 0')", "drop": ".select_rows('x > 0')", "map": ".select_rows('x > 0')"}
+    for k, step in same_steps.items():
+        ps.append((f"same_{k}_then_step_two_tables_concat", f"({D}{step}{after[k]}).concat_rows(b=({D2}{step}{after[k]}), id_column='src')"))
+        ps.append((f"same_{k}_two_tables_concat_noid", f"({D}{step}).concat_rows(b=({D2}{step}), id_column=None)"))
     out = []
     for label, src in ps:
         ops = progs.try_build(src)
         if ops is not None:
             out.append((label, src, progs.tables_of(ops)))
-    singles = progs.enumerate_programs(1)
-    pairs = progs.enumerate_programs(2)
-    out += singles
-    out += pairs[::6] if tier == "quick" else pairs
-    for tr in progs.CURATED:
-        src = progs.make(tr)
-        ops = progs.try_build(src)
-        if ops is not None:
-            out.append(("+".join(tr), src, progs.tables_of(ops)))
     return out
 
 
